@@ -21,6 +21,8 @@ pub enum Kind {
 }
 
 pub const DENOMS: [&str; 3] = ["uatom", "ubtc", "ueth"];
+/// denominations granted now and then: unknown ones, and ones spelt with capital letters (IBC vouchers are)
+pub const ODD_DENOMS: [&str; 4] = ["unknown", "UATOM", "ibc/27394FB092D2ECCD56123C74F36E4C1F926001CEADA9CA97EA622B25F41E5EB2", "factory/cosmwasm1abc/uLP"];
 
 #[derive(Clone, Copy, Debug, PartialEq, Eq, Hash, Default)]
 pub struct Perm {
@@ -423,7 +425,7 @@ fn gen_coins(rng: &mut Rng, anchors: &BTreeMap<String, u128>) -> Vec<Coin> {
     for _ in 0..n {
         let d = if rng.chance(1, 12) {
             // unknown or look-alike denominations (case variant, prefix, suffix of a granted one)
-            rng.pick(&["unknown", "UATOM", "uato", "uatomx", "ubtc ", "Ueth"]).to_string()
+            rng.pick(&["unknown", "UATOM", "uato", "uatomx", "ubtc ", "Ueth", "ibc/27394fb092d2eccd56123c74f36e4c1f926001ceada9ca97ea622b25f41e5eb2", "factory/cosmwasm1abc/ulp"]).to_string()
         } else if !anchors.is_empty() && rng.chance(2, 3) {
             let ks: Vec<&String> = anchors.keys().collect();
             (*rng.pick(&ks)).clone()
@@ -727,7 +729,8 @@ pub fn gen_op(rng: &mut Rng, p: &Proxy, s: &Snap) -> (String, Op) {
         }
         3 => {
             let spender = any(rng);
-            let d = if rng.chance(1, 15) { "unknown".to_string() } else { rng.pick(&DENOMS).to_string() };
+            // now and then a denomination nobody else uses, some of them spelt with capital letters
+            let d = if rng.chance(1, 15) { rng.pick(&ODD_DENOMS).to_string() } else { rng.pick(&DENOMS).to_string() };
             let amt = match rng.below(12) {
                 0 => 0,
                 1 => u128::MAX,
